@@ -136,7 +136,10 @@ def check(case):
             i, j = np.unravel_index(np.argmax(off / rowmax[:, None]), off.shape)
             res.fail(f"positive-offdiagonal:{tag}", f"step matrix (ghosts eliminated) has a positive off-diagonal in row {i} (col {j}) on {name}: "
                      f"{off[i, j]:.3e} vs row scale {rowmax[i]:.3e}", worst_off)
-        rs = T.sum(axis=1) / rowmax
+        # the property is claimed for EVERY time step: as dt -> infinity the step matrix tends to the spatial operator itself,
+        # so the row sums are examined without the transient diagonal (which would mask an imbalance at moderate dt)
+        rowmax_e = np.abs(el[2])[el[4]].sum(axis=1) + 1e-300      # size of the row's coefficients before ghost elimination / cancellation
+        rs = np.minimum(T.sum(axis=1) / rowmax, Ae.sum(axis=1) / rowmax_e)
         # boundary data enter the RHS; row sums of the homogeneous operator must not be negative
         res.see("rowsum", float(max(-rs.min(), 0.0)))
         if rs.min() < -1e-9:
